@@ -362,6 +362,7 @@ type Summary struct {
 	Reached     map[string]int    `json:"reached"`
 	CoverSeen   map[string]bool   `json:"cover_seen"`
 	Covered     map[string]bool   `json:"covered"`
+	CoverWit    map[string][]InputRec `json:"cover_witness"`
 	Violations  []Violation       `json:"violations"`
 	ViolationN  map[string]int    `json:"violation_counts"`
 	Sat         int               `json:"sat"`
@@ -592,6 +593,14 @@ func master(cfg *config) int {
 		}
 		for k := range r.Covered {
 			sum.Covered[k] = true
+		}
+		for k, w := range r.CoverWit {
+			if sum.CoverWit == nil {
+				sum.CoverWit = map[string][]InputRec{}
+			}
+			if _, ok := sum.CoverWit[k]; !ok {
+				sum.CoverWit[k] = w
+			}
 		}
 		for k, v := range r.Notes {
 			sum.Notes[k] = v
